@@ -1052,13 +1052,13 @@ Proof.
   assert (N2 : st_nid s2 = st_nid s).
   { unfold set_term in H2. unfold append_entry in H1. repeat inv1; reflexivity. }
   apply cls_cand; [reflexivity|].
-  match goal with |- is_voter (st_latest (set_role (change_config ?x ?c1) _)) (st_nid _) = true =>
-    change (is_voter (st_latest (change_config x c1)) (st_nid (change_config x c1)) = true);
-    assert (G : gr (change_config x c1) = withc (gr x) c1) by apply gr_change_config
-  end.
-  unfold gr, withc in G. cbn [fst snd] in G. inversion G as [[G1 G2 G3]]. rewrite G1, G3.
-  change (st_nid (set_log s2 (st_logprev s2) (st_log s2) 1 1)) with (st_nid s2). rewrite N2.
-  unfold is_voter, cfg_node. cbn [c_nodes]. unfold cfg_node in EN. rewrite EN. exact EV.
+  rewrite (voter_gr _ _ (gr_set_role _ _)).
+  set (x := set_log s2 (st_logprev s2) (st_log s2) 1 1).
+  set (c1 := mkConfig (c_nodes c) 1 1).
+  assert (L : st_latest (change_config x c1) = c1 /\ st_nid (change_config x c1) = st_nid s).
+  { unfold change_config. destruct (_ && _); split; try reflexivity; exact N2. }
+  destruct L as [L1 L2]. rewrite L1, L2.
+  unfold is_voter, cfg_node, c1. cbn [c_nodes]. unfold cfg_node in EN. rewrite EN. exact EV.
 Qed.
 
 Lemma rt_on_take_snapshot s tid th w : on_take_snapshot s tid th = Done w -> rt (fst w) = rt s.
@@ -1068,7 +1068,11 @@ Proof. unfold snapshot_run. intros H. repeat inv1; rt_norm; reflexivity. Qed.
 Lemma rt_on_snapshot_taken opt s w : on_snapshot_taken opt s = Done w -> rt (fst w) = rt s.
 Proof. unfold on_snapshot_taken. intros H. gor; rt_norm; try congruence; reflexivity. Qed.
 Lemma rt_restart s k s' : restart s k = Done s' -> st_role s' = Follower.
-Proof. unfold restart. intros H. repeat inv1; reflexivity. Qed.
+Proof.
+  unfold restart. intros H. cbv zeta in H.
+  destruct (negb _) in H; [discriminate|].
+  destruct (log_lastindex _ <? st_snapidx _) in H; repeat inv1; reflexivity.
+Qed.
 
 Lemma cls_node_task s t w : node_task s t = Done w -> cls s (fst w).
 Proof.
@@ -1121,10 +1125,10 @@ Proof.
     apply obind_inv in H. destruct H as (s1 & H1 & H).
     eapply cls_finish; [|exact H|assumption..].
     destruct (st_role s =? Follower). { inversion H1; subst. apply cls_follower_on_timeout. }
-    destruct (st_role s =? Candidate).
-    { apply start_election_frame in H1. destruct H1 as (R & G & V).
+    destruct (st_role s =? Candidate) eqn:EC.
+    { apply N.eqb_eq in EC. apply start_election_frame in H1. destruct H1 as (R & G & V).
       apply cls_cand; [|rewrite (voter_gr _ _ G); exact V].
-      admit. }
+      rewrite R. exact EC. }
     unfold leader_on_timeout in H1. apply quiet_check_quorum in H1.
     apply cls_quiet. eapply quiet_trans; [|exact H1]. apply quiet_same. reflexivity.
   - (* vote result *)
@@ -1160,4 +1164,55 @@ Proof.
     apply obind_inv in H. destruct H as ([s1 out1] & H1 & H).
     apply rt_on_snapshot_taken in H1. cbn [fst] in H1.
     eapply cls_finish; [|exact H|assumption..]. apply cls_quiet, quiet_same. exact H1.
-Admitted.
+Qed.
+
+(* ---------------------------------------------------------------- the statements as first written are refutable *)
+Module Refutations.
+Definition opt0 := mkOptions false false false 0 0 [].
+Definition rp0 (id m : N) := mkRepl id m false true 0 None 0 m (m+1) m 0 true 0 None.
+
+(* two nodes with the same id, the first one no voter: [is_voter] says "no voter" for every id, yet the
+   second node's match index decides the commit point *)
+Definition c1 := mkConfig [mkNode 5 [1] false [] 0; mkNode 5 [2] true [] 0] 1 1.
+Definition s1 := (fresh_node 1 1) <| st_latest := c1 |> <| st_lastidx := 10 |>.
+Definition l1 (m : N) := mkLdr true false 2 1 [] [rp0 5 m] false 0 0 false false 0 [] 0.
+
+Lemma nonvoter_acks_do_not_count_original_false :
+  ~ (forall s l l',
+      ld_numvoters l = ld_numvoters l' -> ld_voter l = ld_voter l' ->
+      (forall id, is_voter (st_latest s) id = true -> id <> st_nid s ->
+          option_map rp_match (find_repl id (ld_repls l)) = option_map rp_match (find_repl id (ld_repls l'))) ->
+      majority_match s l = majority_match s l').
+Proof.
+  intros H. specialize (H s1 (l1 7) (l1 9) eq_refl eq_refl).
+  assert (X : majority_match s1 (l1 7) = majority_match s1 (l1 9)).
+  { apply H. intros id Hv _. exfalso. unfold is_voter, cfg_node in Hv.
+    change (st_latest s1) with c1 in Hv. unfold c1 in Hv. cbn [c_nodes find_node n_id n_voter] in Hv.
+    destruct (5 =? id); discriminate. }
+  vm_compute in X. discriminate.
+Qed.
+
+(* a candidate that is the only voter and carries a pending demotion (a configuration that
+   Config.validate rejects): it wins, and leader.init -- which commits at once in a single-voter
+   cluster -- appends the configuration that demotes it; the step ends with a leader that is no voter *)
+Definition me2 := mkNode 1 [1] true [] ActDemote.
+Definition c2 := mkConfig [me2] 1 1.
+Definition e2 := mkEntry 1 1 entryConfig (enc_config_data [me2]).
+Definition s2 := mkNode_ 1 1 2 1 0 [e2] 1 1 1 0 0 empty_config c2 c2
+          Candidate 0 1 true false None false 1 1 false 1%Z false None.
+
+Lemma new_candidate_or_leader_is_voter_original_false :
+  ~ (forall opt s ev o s', model_event opt s ev = Done (o, s') ->
+      (st_role s' = Candidate \/ st_role s' = Leader) ->
+      (st_role s <> st_role s' \/ st_term s <> st_term s') ->
+      (st_role s = Candidate -> is_voter (st_latest s) (st_nid s) = true) ->
+      is_voter (st_latest s') (st_nid s') = true).
+Proof.
+  intros H.
+  destruct (model_event opt0 s2 (EVoteResult 2 success)) as [[o s']|] eqn:E; [|vm_compute in E; discriminate].
+  specialize (H _ _ _ _ _ E).
+  vm_compute in E. injection E as _ E. subst s'.
+  assert (X : true = false); [|discriminate].
+  symmetry. apply H; [right; reflexivity | left; discriminate | intros _; reflexivity].
+Qed.
+End Refutations.
